@@ -157,7 +157,7 @@ def sched_abort(r, big):
 def sched_exempt(r, big):
     """Never-expiring duties: more than the cap (10) of distinct duties per share and validator evicts the oldest."""
     n, t = r.choice([(3, 2), (4, 3), (5, 3)])
-    nd = r.randint(11, 14)
+    nd = r.choice([10, 10, 11, 11, 12, 13])     # 10 distinct duties fill the cap exactly, the 11th evicts
     ds = [duty(i, "exit") for i in range(nd)]
     steps = []
     v = 1
